@@ -80,7 +80,13 @@ type scenario struct {
 	Phases       []phase   `json:"phases"`
 	Close        bool      `json:"close"`
 	DirectedExit bool      `json:"directedExit"` // park exiting workers until a trySpawn completed
-	Plan         vlib.Plan `json:"plan"`
+	// PreAlloc > 0: that many goroutines call PreAllocWorkerSize(PreAllocN) concurrently with the
+	// first phase's submissions (workerSizeMaximum must hold against this public entry point too)
+	PreAlloc  int `json:"preAlloc"`
+	PreAllocN int `json:"preAllocN"`
+	// NilHandler: no panic handler is installed (SetPanicHandler(nil)); job panics must still be contained
+	NilHandler bool      `json:"nilHandler"`
+	Plan       vlib.Plan `json:"plan"`
 }
 
 func (s scenario) String() string {
@@ -107,7 +113,7 @@ func (s scenario) String() string {
 		}
 		sb.WriteString("]")
 	}
-	fmt.Fprintf(&sb, " close=%v directedExit=%v plan=%v", s.Close, s.DirectedExit, s.Plan)
+	fmt.Fprintf(&sb, " close=%v directedExit=%v preAlloc=%dx(%d) nilHandler=%v plan=%v", s.Close, s.DirectedExit, s.PreAlloc, s.PreAllocN, s.NilHandler, s.Plan)
 	return sb.String()
 }
 
@@ -185,6 +191,11 @@ func genScenario(t *rapid.T) scenario {
 	}
 	s.Close = rapid.IntRange(0, 3).Draw(t, "close") == 0
 	s.DirectedExit = rapid.IntRange(0, 3).Draw(t, "directedExit") == 0
+	if rapid.IntRange(0, 2).Draw(t, "preAlloc") == 0 {
+		s.PreAlloc = rapid.IntRange(1, 3).Draw(t, "preAllocCallers")
+		s.PreAllocN = rapid.IntRange(1, c.Max+2).Draw(t, "preAllocN")
+	}
+	s.NilHandler = rapid.IntRange(0, 4).Draw(t, "nilHandler") == 0
 	s.Plan = vlib.DrawPlan(t, poolPoints, 6)
 	return s
 }
@@ -263,8 +274,11 @@ func runScenario(s scenario) result {
 		SetSpawnWorkerDuration(time.Duration(c.SpawnUs) * time.Microsecond).
 		SetWorkerExpiryDuration(expiry).
 		SetWorkerJamDuration(time.Duration(c.JamUs) * time.Microsecond).
-		SetScheduleRetryInterval(50 * time.Microsecond).
-		SetPanicHandler(func(p interface{}) {
+		SetScheduleRetryInterval(50 * time.Microsecond)
+	if s.NilHandler {
+		pool.SetPanicHandler(nil)
+	} else {
+		pool.SetPanicHandler(func(p interface{}) {
 			handlerMu.Lock()
 			if id, ok := p.(int); ok {
 				handlerCalls[id]++
@@ -273,6 +287,7 @@ func runScenario(s scenario) result {
 			}
 			handlerMu.Unlock()
 		})
+	}
 	closed := false
 	defer func() {
 		if !closed {
@@ -362,8 +377,15 @@ func runScenario(s scenario) result {
 		case apiScheduleTimeout:
 			err = pool.ScheduleWithTimeout(job, timeout)
 		case apiInvoke:
-			worker.NewDefaultInvokable[int](pool, func(int) { job() }).Invoke(x.Job)
-			hasErr = false
+			// Invoke has no result: observe what it got from the pool through a recording WorkerPool
+			rp := &recPool{WorkerPool: pool}
+			worker.NewDefaultInvokable[int](rp, func(int) { job() }).Invoke(x.Job)
+			if rp.calls != 1 {
+				fail("C09/invoke", "Invoke(%d) called Schedule %d times, want exactly once", x.Job, rp.calls)
+				hasErr = false
+			} else {
+				err = rp.err
+			}
 		case apiInvokeTimeout:
 			err = worker.NewDefaultInvokable[int](pool, func(int) { job() }).InvokeWithTimeout(x.Job, timeout)
 		}
@@ -380,7 +402,7 @@ func runScenario(s scenario) result {
 			atomic.AddInt64(&rejectedDone, 1)
 			switch err {
 			case worker.ErrWorkerPoolJobQueueIsFull:
-				if x.API != apiSchedule {
+				if x.API != apiSchedule && x.API != apiInvoke {
 					fail("C09/error-value", "job %d: %s returned ErrWorkerPoolJobQueueIsFull instead of waiting for the timeout", x.Job, "STIJ"[x.API:x.API+1])
 				}
 				aHi := atomic.LoadInt64(&submitsStarted) - 1 - rLo
@@ -388,7 +410,7 @@ func runScenario(s scenario) result {
 					fail("C09/full-too-early", "job %d rejected with ErrWorkerPoolJobQueueIsFull although at most %d accepted jobs can be waiting (queue holds %d before it is full)", x.Job, nMax, full)
 				}
 			case worker.ErrWorkerPoolScheduleTimeout:
-				if x.API == apiSchedule {
+				if x.API == apiSchedule || x.API == apiInvoke {
 					fail("C09/error-value", "Schedule returned ErrWorkerPoolScheduleTimeout")
 				}
 			case worker.ErrWorkerPoolIsClosed:
@@ -453,6 +475,12 @@ func runScenario(s scenario) result {
 					submit(x, &attempts, pi)
 				}
 			})
+		}
+		if pi == 0 {
+			for k := 0; k < s.PreAlloc; k++ {
+				wg.Add(1)
+				go submitterLoop(&wg, fail, func() { pool.PreAllocWorkerSize(s.PreAllocN) })
+			}
 		}
 		done := make(chan struct{})
 		go func() { wg.Wait(); close(done) }()
@@ -533,7 +561,7 @@ func runScenario(s scenario) result {
 			got += handlerCalls[id]
 		}
 		handlerMu.Unlock()
-		return got >= want
+		return got >= want || s.NilHandler
 	})
 	anyPanicBeforeAccepted, overflow := false, false
 	acceptedN := 0
@@ -563,7 +591,7 @@ func runScenario(s scenario) result {
 		if s.Jobs[id].Panics && atomic.LoadInt32(&runs[id]) == 1 {
 			want = 1
 		}
-		if handlerCalls[id] != want && atomic.LoadInt32(&runs[id]) <= 1 {
+		if !s.NilHandler && handlerCalls[id] != want && atomic.LoadInt32(&runs[id]) <= 1 {
 			fail("C09/panic-handler", "panic handler called %d times for job %d (panics=%v, ran=%d), want %d", handlerCalls[id], id, s.Jobs[id].Panics, runs[id], want)
 		}
 	}
@@ -585,6 +613,19 @@ func runScenario(s scenario) result {
 	}
 	res.nontrivial = anyPanicBeforeAccepted || overflow || multi
 	return res
+}
+
+// recPool records what a DefaultInvokable hands to / gets from the pool.
+type recPool struct {
+	worker.WorkerPool
+	calls int
+	err   error
+}
+
+func (r *recPool) Schedule(f func()) error {
+	r.calls++
+	r.err = r.WorkerPool.Schedule(f)
+	return r.err
 }
 
 func submitterLoop(wg *sync.WaitGroup, fail func(k, f string, a ...any), body func()) {
@@ -619,6 +660,10 @@ func oneSubmitter(jobs ...int) [][]submission {
 
 func TestRegress(t *testing.T) {
 	cases := []scenario{
+		// no panic handler installed: a job panic must still be contained (process survives, later jobs run)
+		{Cfg: poolCfg{Max: 2, StandBy: 1, Batch: 1, ChanCap: 2, Buffer: 5, SpawnUs: 50, JamUs: 1000000}, NilHandler: true,
+			Jobs:   []jobSpec{{Dur: durInstant}, {Dur: durYield, N: 2, Panics: true}, {Dur: durInstant}, {Dur: durInstant}},
+			Phases: []phase{{Subs: oneSubmitter(0, 1, 2, 3)}}},
 		// DESIGN §4 #13: after a (slow) panicking job the only worker exits and nobody wakes the spawn loop
 		{Cfg: poolCfg{Max: 1, StandBy: 1, Batch: 1, ChanCap: 2, Buffer: 5, SpawnUs: 50, JamUs: 1000000},
 			Jobs:   []jobSpec{{Dur: durSleep, N: 1500, Panics: true}, {Dur: durInstant}},
